@@ -24,7 +24,7 @@ RuleTexts == {R_noc, R_all, R_bad}
 MCInit ==
   /\ cfg = [maxNames |-> LimNames, maxMatch |-> LimMatch, maxReplies |-> LimReplies, maxCompleted |-> LimCompleted,
             maxPerUser |-> LimPerUser, busUid |-> 0, policy |-> AllowAllPolicy, epoch |-> 0,
-            maxMsgFds |-> 16, maxMsgSize |-> 70000,
+            maxMsgFds |-> 16, maxMsgSize |-> 70000, busPid |-> 1, clientPid |-> 2, guid |-> <<103>>,
             \* with "act" among the operations the first name has a service file
             act |-> IF "act" \in Ops THEN <<[n |-> NameOf(1), kind |-> "ok"]>> ELSE <<>>, maxPendingAct |-> 3]
   /\ Init0
@@ -54,7 +54,7 @@ MCNext ==
     \/ "names" \in Ops /\ \E n \in Names, f \in FlagSet : RequestName(s, 1, 0, n, f)
     \/ "names" \in Ops /\ \E n \in Names : ReleaseName(s, 1, 0, n)
     \/ "odd" \in Ops /\ \E n \in OddNames : RequestName(s, 1, 0, n, 0) \/ ReleaseName(s, 1, 0, n)
-    \/ "query" \in Ops /\ \E n \in Names \cup {BUS}, k \in {"owner", "has", "queued", "list"} : Query(s, 1, 0, k, n)
+    \/ "query" \in Ops /\ \E n \in Names \cup {BUS}, k \in {"owner", "has", "queued", "list", "uid", "pid", "id", "acts"} : Query(s, 1, 0, k, n)
     \/ "match" \in Ops /\ \E t \in RuleTexts : AddMatch(s, 1, 0, t) \/ RemoveMatch(s, 1, 0, t)
     \/ "send" \in Ops /\ \E ty \in SendTy, d \in Names \cup {<<>>} \cup {uname[x] : x \in Slot}, ser \in SendSer, rs \in SendRs, fl \in SendFl :
            /\ (d # <<>> \/ ty = 4)
